@@ -230,3 +230,181 @@ HARNESSES = [
       bounds=lambda tier: {"order": 3, "ops": 5 if tier == "quick" else 6, "keys": 4, "values": "symbolic [1,9]"},
       outside=["overlapping B-tree operations in simulated time", "orders other than 3"]),
 ]
+
+
+# ------------------------------------------------------------------ transactions
+from happysimulator.components.datastore.kv_store import KVStore as _KV
+from happysimulator.components.storage.transaction_manager import IsolationLevel, TransactionManager
+
+TX_GAPS = [0.0, 0.002]
+
+
+def transactions(sym, tier):
+    """Two transactions of two operations each (read / write on keys x, y) run as processes against a real
+    TransactionManager over a KVStore, the second starting at a symbolic offset, with solver-chosen gaps
+    between operations.  SERIALIZABLE: committed transactions' reads and the final state equal some serial
+    order.  SNAPSHOT_ISOLATION: each transaction's reads come from one committed state."""
+    r = Result()
+    iso = [IsolationLevel.SERIALIZABLE, IsolationLevel.SNAPSHOT_ISOLATION][sym.choice("isolation", 2)]
+    store = _KV("kv", read_latency=0.001, write_latency=0.001)
+    store.put_sync("x", 0)
+    store.put_sync("y", 0)
+    tm = TransactionManager("tm", store, isolation=iso)
+    progs = []
+    for t in range(2):
+        ops = []
+        for j in range(2):
+            w = sym.bool(f"t{t}_op{j}_is_write")
+            k = "xy"[sym.choice(f"t{t}_op{j}_key", 2)]
+            ops.append(("w" if w else "r", k, 10 * (t + 1) + j))
+        progs.append(ops)
+    gaps = [[0.0, TX_GAPS[sym.choice(f"t{t}_gap1", 2)]] for t in range(2)]
+    start2 = sym.int("t1_start_ns", 0, 4_000_000)
+    outcome = {}
+    commit_order = []
+    states = [dict(x=0, y=0)]
+
+    def mk(t):
+        def body(self):
+            tx = yield from tm.begin()
+            reads = []
+            for j, (kind, k, v) in enumerate(progs[t]):
+                if gaps[t][j]:
+                    yield gaps[t][j]
+                if kind == "r":
+                    got = yield from tx.read(k)
+                    reads.append((k, got, k in tx._write_set))
+                else:
+                    yield from tx.write(k, v)
+            ok = yield from tx.commit()
+            outcome[t] = (ok, reads)
+            if ok:
+                commit_order.append(t)
+                states.append({kk: store.get_sync(kk) for kk in ("x", "y")})
+        return body
+
+    cl = [_Client(f"tx{t}", mk(t)) for t in range(2)]
+    sim = Simulation(entities=[store, tm] + cl)
+    mon = Monitor(sim, cap=40)
+    sim.schedule([mk_event(0, "go", cl[0]), mk_event(start2, "go", cl[1])])
+    try:
+        sim.run()
+    except SpinDetected:
+        pass
+    mon.judge(r, "transactions")
+    final = {kk: store.get_sync(kk) for kk in ("x", "y")}
+    committed = [t for t in range(2) if outcome.get(t, (False,))[0]]
+    if len(outcome) != 2:
+        r.bad("every_transaction_finishes", sorted(outcome))
+    if iso == IsolationLevel.SERIALIZABLE:
+        import itertools
+        ok_any = False
+        for perm in itertools.permutations(committed):
+            st = dict(x=0, y=0)
+            good = True
+            for t in perm:
+                local = {}
+                ri = 0
+                for (kind, k, v) in progs[t]:
+                    if kind == "r":
+                        want = local.get(k, st[k])
+                        if outcome[t][1][ri][1] != want:
+                            good = False
+                        ri += 1
+                    else:
+                        local[k] = v
+                st.update(local)
+            if good and st == final:
+                ok_any = True
+        if not ok_any:
+            r.bad("serializable_commits_equal_some_serial_order", {"programs": progs, "outcome": {str(k): [v[0], v[1]] for k, v in outcome.items()}, "final": final})
+    else:
+        for t in committed:
+            rd = [(k, got) for (k, got, own) in outcome[t][1] if not own]
+            if rd and not any(all(s_[k] == got for (k, got) in rd) for s_ in states):
+                r.bad("snapshot_reads_come_from_one_committed_state", {"tx": t, "reads": rd, "committed_states": states, "programs": progs})
+    if len(committed) == 2:
+        r.wit.add("both_committed")
+    if len(committed) < 2 and len(outcome) == 2:
+        r.wit.add("conflict_abort")
+    r.obs = {"isolation": iso.value, "programs": progs, "committed": committed, "final": final}
+    return r
+
+
+def tx_classify(clause, draws, obs):
+    if clause.startswith("snapshot_reads_come_from_one_committed_state"):
+        return "snapshot-isolation-reads-live-store"
+    return None
+
+
+HARNESSES.append(
+    H(name="c14_transactions", fn=transactions, shape="S", budget=lambda tier: 900.0 if tier == "quick" else 3000.0,
+      cubes=lambda tier: [dict({"isolation": i, "t0_op0_is_write": a, "t0_op1_is_write": b, "t1_op0_is_write": c, "t1_op1_is_write": d},
+                               **({"t0_op0_key": 0, "t1_op0_key": 0} if tier == "quick" else {}))
+                          for i in range(2) for a in range(2) for b in range(2) for c in range(2) for d in range(2)],
+      require=lambda tier: ["both_committed", "conflict_abort"], classify=tx_classify,
+      functions=["TransactionManager.begin/_check_conflict", "StorageTransaction.read/write/commit", "KVStore.get/put_sync"],
+      bounds=lambda tier: {"transactions": 2, "ops each": 2, "keys": 2, "second start": "symbolic ns [0, 4 ms]", "gaps between ops": TX_GAPS, "isolation": ["SERIALIZABLE", "SNAPSHOT_ISOLATION"]},
+      outside=["READ_COMMITTED", "three or more concurrent transactions", "transactions over the LSM tree / B-tree"]))
+
+
+# ------------------------------------------------------------------ compaction as an inductive step
+from happysimulator.components.storage.lsm_tree import _TOMBSTONE as _TS
+from happysimulator.components.storage.sstable import SSTable
+
+CKEYS = ["a", "f"]
+
+
+def compaction_step(sym, tier):
+    """Arbitrary level contents, then ONE compaction chosen by the real strategy: compaction must not
+    change what any key reads as (a tombstone may only be dropped when nothing older is shadowed).
+    State space: two tables in L0 and one in each deeper level; key 'a' is absent / a value / a tombstone
+    in each table, key 'f' (which shapes the tables' key ranges) absent / a value.  Below L0 a level holds
+    one table, so the reachable-state invariant 'a key lives in at most one table of a level' holds."""
+    r = Result()
+    levels = 3 + sym.choice("levels_minus_3", 2)
+    strat = sym.choice("strategy", 3)
+    t = LSMTree("lsm", memtable_size=100, compaction_strategy=_strategy(strat), max_levels=levels)
+    seqno = 0
+    content = []
+    for lv in range(levels):
+        tables = []
+        for tb in range(2 if lv == 0 else 1):
+            d = {}
+            st = sym.choice(f"L{lv}t{tb}_a", 3)             # 0 absent, 1 value, 2 tombstone
+            if st == 1:
+                d["a"] = 100 * lv + 10 * tb + 1
+            elif st == 2:
+                d["a"] = _TS
+            if lv < 3 and sym.bool(f"L{lv}t{tb}_f"):
+                d["f"] = 100 * lv + 10 * tb + 2
+            if d:
+                seqno += 1
+                t._levels[lv].append(SSTable(sorted(d.items()), level=lv, sequence=seqno))
+                tables.append(d)
+        content.append(tables)
+    before = {k: t.get_sync(k) for k in CKEYS}
+    n_before = sum(len(lv) for lv in t._levels)
+    if sym.bool("generator_api"):
+        _drive(t._compact())
+    else:
+        t._compact_sync()
+    after = {k: t.get_sync(k) for k in CKEYS}
+    if after != before:
+        r.bad("compaction_preserves_every_read", {"before": before, "after": after,
+              "levels": [[{k: ("T" if v is _TS else v) for k, v in tb.items()} for tb in lv] for lv in content], "strategy": STRATS[strat]})
+    if sum(len(lv) for lv in t._levels) < n_before:
+        r.wit.add("tables_merged")
+    if before["a"] is None and any(tb.get("a") is _TS for lv in content for tb in lv):
+        r.wit.add("tombstone_shadows_older_value") if any(tb.get("a") not in (None, _TS) for lv in content for tb in lv) else None
+    r.obs = {"before": before}
+    return r
+
+
+HARNESSES.append(
+    H(name="c14_compaction_step", fn=compaction_step, shape="I", budget=lambda tier: 900.0 if tier == "quick" else 3000.0,
+      cubes=lambda tier: [{"levels_minus_3": a, "strategy": b, "generator_api": g} for a in range(2) for b in range(3) for g in range(2)],
+      require=lambda tier: ["tables_merged", "tombstone_shadows_older_value"], classify=classify,
+      functions=["LSMTree._compact/_compact_sync", "SizeTieredCompaction/LeveledCompaction/FIFOCompaction.select_compaction", "SSTable.scan/overlaps/get"],
+      bounds=lambda tier: {"levels": [3, 4], "tables": "2 in L0, 1 per deeper level", "key a per table": "absent | value | tombstone", "key f per table": "absent | value"},
+      outside=["several compactions in a row from one state (covered by the sequential scripts)", "levels below L0 holding several tables"]))
